@@ -59,3 +59,14 @@ PROPS["RG"] = dict(   # development aid: all L1 R/G contracts at once (not a pro
     stubbed_harnesses=(), trusted_base=[A_TOOLS, A_SC, A_RG, A_EBR, A_RANGE],
     kani_flags=["--no-assertion-reach-checks"],
 )
+
+_C08 = ["c08_compare_exchange", "c08_compare_exchange_weak", "c08_compare_exchange_tag", "c08_load", "c08_store", "c08_swap", "c08_take_drop_from", "c08_new"]
+_L2S = ["l2_rc_ledger", "l2_rc_new_deref"]
+_C10 = ["c10_new_many_0", "c10_new_many_1", "c10_new_many_2", "c10_new_many_3", "c10_new_many_8", "c10_new_many_iter", "c10_iter_next_drop_abort",
+        "c10_weak_many_0", "c10_weak_many_1", "c10_weak_many_3", "c10_weak_many_8"]
+_C19 = ["c19_rc", "c19_snapshot"]
+PROPS["L2S"] = dict(
+    title="(dev) all strong.rs L2 contracts", level="proof", modules=["utils_rg_h.rs", "internal_h.rs", "strong_h.rs"], contract_groups=[],
+    kani=dict(quick=["strong_h.rs::" + h for h in _C08 + _L2S + _C10 + _C19 + ["c11_rc_snapshot_tags"]]),
+    trusted_base=[A_TOOLS], kani_flags=["--no-assertion-reach-checks"],
+)
